@@ -26,6 +26,10 @@ CHECKS = {
 }
 
 CHECKS.update({
+ "C17": dict(engine="E2 bfs (differential)", sec="4/C17", technique=E2 + ", differential: the same actions drive the full serial path and a direct bus in lock-step; plus exhaustive fault injection at the bridge",
+   text="The real Sign -> SerialSignBus -> in-process byte pipe -> Odk -> VirtualSignBus path and an identical VirtualSignBus driven directly are explored together, breadth-first to a fixed point: at controller level (configure, configure_if_needed, send_pages of 4 lists, show, load_next, shut_down, reconfigure as another type, an absent address; 11 types x both flip styles) and at message level (R2 alphabet plus 0/1/15-byte chunks). After every step success/failure, replies and all signs' state/type/pages must agree, no byte may be left on the wire, and every bridge call must have forwarded exactly the table-decoding of the line it read and written back a frame iff the bus replied. Every reply/malformed line x {reply, silence} x {read error at every call index, write error, bus error} is injected at a bridge on a scripted port.",
+   note="Single-threaded duplex (the bridge runs inside the controller's port write); pauses skipped through the seam; a refused request is 'no reply' directly and a read failure on the wire."),
+
  "C08": dict(engine="E2 bfs", sec="4/C08", technique=E2 + "; the action alphabet is the union of raw bus messages (which generate every prior state) and whole operations of the real controller",
    text="One explicit-state search per (sign type, flip style, address) over the real VirtualSignBus: raw messages (control messages, counts, the type's own / another type's / an unsupported / an invalid configuration block, data chunks at offsets 0/16/32) drive the sign into every reachable prior state (all 13 protocol states, half-finished configurations, abandoned transfers with any buffered length up to a page + 16 bytes, previous configuration as another or unknown type, ready-to-reset); from every such state each operation of the real Sign (configure, configure_if_needed, send_pages of 4 lists, show, load_next, shut_down) is executed on the real bus and judged by a promise model that states only what the property states; operation chaining falls out of the search.",
    note="Modelling assumption on earlier traffic's configuration blocks stated in the evidence; page contents are 4 patterns; thorough adds 6 addresses, richer chunks and a bystander sign."),
